@@ -130,6 +130,13 @@ pub struct EventModel {
     /// `requested_samples` differs from `pad_samples`: pads of one column are
     /// read out by several chips, which need not agree on the waveform length
     pub msg_samples: Vec<(u16, u16)>,
+    /// 0: every packet carries canonical values in the header fields the
+    /// reconstruction does not read; otherwise those fields (PWB threshold
+    /// mask, trigger source and delay, timestamps, counters, FIFO depths; ADC
+    /// accepted-trigger counter, timestamps, trigger offset; TRG counters and
+    /// bitmaps) take other valid values derived from this seed
+    #[serde(default)]
+    pub header_seed: u64,
 }
 
 pub type Bank = (String, Vec<u8>);
@@ -142,6 +149,40 @@ pub fn wire_bank_name(board: usize, channel: u8) -> String {
 
 /// A spec-conformant, unsuppressed ADC v3 packet for (board, channel).
 pub fn adc_packet(board: usize, channel: u8, samples: &[i16]) -> Vec<u8> {
+    adc_packet_with(board, channel, samples, 0)
+}
+
+fn hmix(seed: u64, k: u64) -> u64 {
+    crate::props::mix(seed, k)
+}
+
+/// Same, with the header fields the reconstruction does not read derived from `seed`.
+pub fn adc_packet_with(board: usize, channel: u8, samples: &[i16], seed: u64) -> Vec<u8> {
+    let mut m = adc_model_canonical(board, channel, samples);
+    let canonical = m.encode();
+    if seed == 0 {
+        return canonical;
+    }
+    let s = hmix(seed, (board * 64 + channel as usize) as u64);
+    let edge = |v: u64, k: u64| match hmix(s, k) % 4 {
+        0 => 0u64,
+        1 => u64::MAX,
+        _ => v,
+    };
+    m.accepted_trigger = edge(hmix(s, 1), 11) as u16;
+    m.ts_lsw = edge(hmix(s, 2), 12) as u32;
+    m.ts_msw = edge(hmix(s, 3), 13) as u32;
+    m.trig_offset = edge(hmix(s, 4), 14) as u32 as i32;
+    m.build_ts = edge(hmix(s, 5), 15) as u32;
+    let b = m.encode();
+    // accepted by construction: the reference must decode it to the same channel and waveform
+    match (oracles::adc::ref_adc(&b), oracles::adc::ref_adc(&canonical)) {
+        (Ok(x), Ok(y)) if x.long.as_ref().map(|l| (&l.samples, l.mac)) == y.long.as_ref().map(|l| (&l.samples, l.mac)) && x.channel == y.channel && x.module == y.module && x.suppression == y.suppression && x.keep_last == y.keep_last => b,
+        _ => canonical,
+    }
+}
+
+fn adc_model_canonical(board: usize, channel: u8, samples: &[i16]) -> AdcModel {
     let mut m = AdcModel {
         ptype: 1,
         version: 3,
@@ -165,17 +206,73 @@ pub fn adc_packet(board: usize, channel: u8, samples: &[i16]) -> Vec<u8> {
         extra: vec![],
     };
     m.seal_baseline();
-    m.encode()
+    m
 }
 
 pub fn trg_bank(timestamp: u32) -> Bank {
     ("ATAT".into(), TrgModel::valid(5, 5, 6, 7, timestamp).encode())
 }
 
+/// Same, with counters and bitmaps derived from `seed` (still ordered
+/// output <= scaledown <= drift <= input; the reference validator decides).
+pub fn trg_bank_with(timestamp: u32, seed: u64) -> Bank {
+    if seed == 0 {
+        return trg_bank(timestamp);
+    }
+    let o = match hmix(seed, 1) % 4 { 0 => 0, 1 => 0x0FFF_FFFF, _ => hmix(seed, 2) as u32 & 0x0FFF_FFFF };
+    let step = |k: u64| match hmix(seed, k) % 3 { 0 => 0u32, 1 => 1, _ => hmix(seed, k + 10) as u32 % 1000 };
+    let sd = o.saturating_add(step(3));
+    let d = sd.saturating_add(step(4));
+    let i = d.saturating_add(step(5));
+    let b = TrgModel::valid(o, sd, d, i, timestamp).encode();
+    match oracles::trg::ref_trg(&b) {
+        Ok(f) if f.timestamp == timestamp => ("ATAT".into(), b),
+        _ => trg_bank(timestamp),
+    }
+}
+
 /// The chunks (as banks) of one PWB message.
 pub fn pwb_banks(board: usize, chip: u8, channels: Vec<(u16, Vec<i16>)>, requested: u16, chunk_size: u16) -> Vec<Bank> {
-    let payload = PwbModel::valid(chip, PADWING_BOARDS[board].1, channels, requested).encode();
-    cut_into_chunks(&payload, chunk_size.max(1) as usize, PADWING_BOARDS[board].2, chip, 0, 0)
+    pwb_banks_with(board, chip, channels, requested, chunk_size, 0)
+}
+
+/// Same, with the header fields the reconstruction does not read derived from `seed`.
+pub fn pwb_banks_with(board: usize, chip: u8, channels: Vec<(u16, Vec<i16>)>, requested: u16, chunk_size: u16, seed: u64) -> Vec<Bank> {
+    let mut model = PwbModel::valid(chip, PADWING_BOARDS[board].1, channels, requested);
+    let mut payload = model.encode();
+    let (mut ps, mut cs) = (0u32, 0u16);
+    if seed != 0 {
+        let s = hmix(seed, (board * 4 + chip as usize) as u64);
+        let all = (1u128 << 79) - 1;
+        let rnd = ((hmix(s, 1) as u128) << 64 | hmix(s, 2) as u128) & all;
+        model.thr_mask = match hmix(s, 3) % 6 {
+            0 => model.sent_mask,
+            1 => 0,
+            2 => all,
+            3 => rnd,
+            // one channel over threshold that was not sent, one sent channel below threshold
+            4 => model.sent_mask ^ (1u128 << (hmix(s, 4) % 79)),
+            _ => !model.sent_mask & all,
+        };
+        model.trigger = [0u8, 1, 3][(hmix(s, 5) % 3) as usize];
+        model.delay = hmix(s, 6) as u16;
+        model.timestamp = hmix(s, 7) & 0xFFFF_FFFF_FFFF;
+        model.last_sca = (hmix(s, 8) % 512) as u16;
+        model.event_counter = hmix(s, 9) as u32;
+        model.fifo_max_depth = hmix(s, 10) as u16;
+        model.wdepth = hmix(s, 11) as u8;
+        model.rdepth = hmix(s, 12) as u8;
+        let varied = model.encode();
+        // accepted by construction: the reference must decode the same channels and samples
+        if let (Ok(x), Ok(y)) = (oracles::pwb::ref_pwb(&varied), oracles::pwb::ref_pwb(&payload)) {
+            if x.waveforms == y.waveforms && x.sent == y.sent && x.requested == y.requested && x.mac == y.mac && x.chip == y.chip {
+                payload = varied;
+                ps = hmix(s, 13) as u32;
+                cs = hmix(s, 14) as u16;
+            }
+        }
+    }
+    cut_into_chunks(&payload, chunk_size.max(1) as usize, PADWING_BOARDS[board].2, chip, ps, cs)
         .into_iter()
         .map(|c| (format!("PC{}", PADWING_BOARDS[board].0), c.encode()))
         .collect()
@@ -186,10 +283,10 @@ impl EventModel {
     /// has no channel in the run's map.
     pub fn banks(&self) -> Option<Vec<Bank>> {
         let geo = Geo::get(self.run);
-        let mut out = vec![trg_bank(self.timestamp)];
+        let mut out = vec![trg_bank_with(self.timestamp, self.header_seed)];
         for w in &self.wires {
             let (b, c) = geo.wire[w.wire as usize % 256]?;
-            out.push((wire_bank_name(b, c), adc_packet(b, c, &w.samples)));
+            out.push((wire_bank_name(b, c), adc_packet_with(b, c, &w.samples, self.header_seed)));
         }
         let mut msgs: HashMap<(usize, u8), Vec<(u16, Vec<i16>)>> = HashMap::new();
         for p in &self.pads {
@@ -209,7 +306,7 @@ impl EventModel {
             for c in ch.iter_mut() {
                 c.1.resize(n as usize, PAD_BASELINE_SIM);
             }
-            out.extend(pwb_banks(k.0, k.1, ch, n, self.chunk_size));
+            out.extend(pwb_banks_with(k.0, k.1, ch, n, self.chunk_size, self.header_seed));
         }
         Some(out)
     }
@@ -332,6 +429,7 @@ impl HitEvent {
             pad_samples: (DELAY_SIM + self.pad_bins as usize).min(511) as u16,
             chunk_size: self.chunk_size,
             msg_samples: vec![],
+            header_seed: if self.noise_seed & 2 == 0 { 0 } else { hmix(self.noise_seed, 0xEAD) | 1 },
         }
     }
 }
